@@ -23,44 +23,29 @@ def resToJson : Res → Json
   | .keyError => Json.str "KeyError"
   | .none => Json.null
 
-/-- `Attribute._set_new_key(namespace, name)` -/
-def renameView (c : Ctx) (s : State) (vid : Nat) (nq : QName) : State × Res :=
-  match getView s vid with
-  | none => (s, .keyError)
-  | some v =>
-    if v.qname == nq then (s, .unit)
-    else
-      match viewValue c s vid with
-      | .value x =>
-        let s1 := setItem c s (.pair nq.1 nq.2) x
-        let s2 := match getView s1 vid with
-          | some v1 => putView s1 { v1 with qname := nq }
-          | none => s1
-        let (s3, r) := delItem c s2 (.pair v.qname.1 v.qname.2)
-        match r with
-        | .keyError => (s3, .keyError)
-        | _ =>
-          -- `self._attributes = attributes`
-          let s4 := match getView s3 vid with
-            | some v3 => putView s3 { v3 with attached := true }
-            | none => s3
-          (s4, .unit)
-      | _ => (s, .keyError)
-
-/-- {"cmd":"attrs","node_ns":…,"default_ns":…,"init":[[ns|null,name,value],…],"ops":[…]} -/
-def handleAttrs (j : Json) : Except String Json := do
-  let c : Ctx := { nodeNs := ← str j "node_ns", defaultNs := ← str j "default_ns" }
-  let init ← (← arr j "init").toList.mapM fun e => do
+def storeOfJson (j : Json) : Except String Store := do
+  (← j.getArr?).toList.mapM fun e => do
     let a ← e.getArr?
     let ns := match a[0]?.getD Json.null with | .str s => some s | _ => none
     let n ← (a[1]?.getD Json.null).getStr?
     let v ← (a[2]?.getD Json.null).getStr?
     pure (((ns, n) : Key), v.toList)
+
+def itemsOfJson (j : Json) : Except String (List (Accessor × Str)) := do
+  (← j.getArr?).toList.mapM fun e => do
+    let a ← e.getArr?
+    let acc ← accOfJson (a[0]?.getD Json.null)
+    let v ← (a[1]?.getD Json.null).getStr?
+    pure (acc, v.toList)
+
+/-- runs the operations of one collection; `other` is the second collection of an `eq` operation -/
+def runAttrOps (c : Ctx) (init : Store) (ops : Array Json) (other : Option (Ctx × State)) :
+    Except String (State × Array Json) := do
   let mut s : State := { store := init, cache := [], views := [], nextView := 0 }
   let mut out : Array Json := #[]
   -- the client numbers Attribute objects in the order it first got hold of them
   let mut handles : Array Nat := #[]
-  for opj in (← arr j "ops") do
+  for opj in ops do
     let op ← str opj "op"
     let acc : Except String Accessor := do accOfJson (← opj.getObjVal? "acc")
     match op with
@@ -75,26 +60,77 @@ def handleAttrs (j : Json) : Except String Json := do
         out := out.push (resToJson (.view ((handles.toList.idxOf vid))))
       | r => out := out.push (resToJson r)
     | "pop" =>
-      let (s1, r) := getItem c s (← acc)
+      let (s', r) := pop c s (← acc)
+      s := s'
       match r with
       | .view vid =>
-        let (s2, _) := delItem c s1 (← acc)
-        s := s2
         if !handles.contains vid then handles := handles.push vid
         out := out.push (resToJson (.view (handles.toList.idxOf vid)))
-      | r => s := s1; out := out.push (resToJson r)
+      | r => out := out.push (resToJson r)
+    | "popitem" =>
+      let (s', key, r) := popItem c s
+      s := s'
+      match key, r with
+      | some q, .view vid =>
+        if !handles.contains vid then handles := handles.push vid
+        out := out.push (Json.mkObj [("name", Json.arr #[Json.str q.1, Json.str q.2]), ("view", jnat (handles.toList.idxOf vid))])
+      | _, r => out := out.push (resToJson r)
+    | "clear" => s := clear c s; out := out.push (Json.str "ok")
+    | "setdefault" =>
+      let (s', r) := setDefault c s (← acc) (← chars opj "value")
+      s := s'
+      match r with
+      | .view vid =>
+        if !handles.contains vid then handles := handles.push vid
+        out := out.push (resToJson (.view (handles.toList.idxOf vid)))
+      | r => out := out.push (resToJson r)
+    | "update" => s := update c s (← itemsOfJson (← opj.getObjVal? "items")); out := out.push (Json.str "ok")
+    | "set_view" =>
+      -- `attributes[item] = attribute`: the value of the attribute object is assigned
+      match viewValue c s (handles[(← nat opj "view")]?.getD 1000000) with
+      | .value x => s := setItem c s (← acc) x; out := out.push (Json.str "ok")
+      | r => out := out.push (resToJson r)
+    | "eq" =>
+      -- answers [self == other, other == self]
+      match other with
+      | some (c2, s2) =>
+        out := out.push (Json.arr #[Json.bool (eqCollections c s c2 s2), Json.bool (eqCollections c2 s2 c s)])
+      | none => throw "eq without a second collection"
+    | "eq_mapping" => out := out.push (Json.bool (eqMapping c s (← itemsOfJson (← opj.getObjVal? "items"))))
     | "contains" => out := out.push (Json.bool (contains c s (← acc)))
     | "getvalue" => out := out.push (match getValue c s (← acc) with | some v => Json.mkObj [("value", jstr v)] | none => Json.null)
     | "iter" => out := out.push (resToJson (.names (iter c s)))
     | "len" => out := out.push (jnat (len s))
     | "view_value" => out := out.push (resToJson (viewValue c s (handles[(← nat opj "view")]?.getD 1000000)))
+    | "view_name" =>
+      -- `(attribute.namespace, attribute.local_name)`
+      match getView s (handles[(← nat opj "view")]?.getD 1000000) with
+      | some v => out := out.push (Json.arr #[Json.str v.qname.1, Json.str v.qname.2])
+      | none => out := out.push (Json.str "KeyError")
     | "view_set" => s := viewSetValue c s (handles[(← nat opj "view")]?.getD 1000000) (← chars opj "value"); out := out.push (Json.str "ok")
     | "view_rename" =>
       let (s', r) := renameView c s (handles[(← nat opj "view")]?.getD 1000000) (← str opj "ns", ← str opj "name")
       s := s'; out := out.push (resToJson r)
     | o => throw s!"unknown attrs op {o}"
-  let dict := absStore s.store
-  return Json.mkObj [("results", Json.arr out),
-    ("dict", Json.arr (dict.map fun e => Json.arr #[Json.str e.1.1, Json.str e.1.2, jstr e.2]).toArray)]
+  return (s, out)
+
+/-- {"cmd":"attrs","node_ns":…,"default_ns":…,"init":[[ns|null,name,value],…],"ops":[…],
+     "other":{"node_ns":…,"default_ns":…,"init":[…],"ops":[…]}?} -/
+def handleAttrs (j : Json) : Except String Json := do
+  let ctxOf (j : Json) : Except String Ctx := do
+    pure { nodeNs := ← str j "node_ns", defaultNs := ← str j "default_ns" }
+  let other ← match j.getObjVal? "other" with
+    | .ok .null => pure none
+    | .ok o => do
+      let c2 ← ctxOf o
+      let (s2, out2) ← runAttrOps c2 (← storeOfJson (← o.getObjVal? "init")) (← arr o "ops") none
+      pure (some (c2, s2, out2))
+    | .error _ => pure none
+  let c ← ctxOf j
+  let (s, out) ← runAttrOps c (← storeOfJson (← j.getObjVal? "init")) (← arr j "ops")
+    (other.map fun o => (o.1, o.2.1))
+  let jd (d : Dict) := Json.arr (d.map fun e => Json.arr #[Json.str e.1.1, Json.str e.1.2, jstr e.2]).toArray
+  return Json.mkObj [("results", Json.arr out), ("dict", jd (absStore s.store)), ("reported", jd (reportedDict c s.store)),
+    ("other_results", match other with | some o => Json.arr o.2.2 | none => Json.null)]
 
 end DelbDriver
